@@ -57,6 +57,10 @@ def _task_post_init(self: Task):
     object.__setattr__(self, 'result_meta', None)
     if self._lt.orig_post_init is not None:
         self._lt.orig_post_init(self)
+        # post_init() may have (re)assigned parameter attributes, so
+        # the cache key must describe the parameters as they now are
+        # (the values that are compared, stored and reconstructed).
+        object.__setattr__(self, 'cache_key', self._lt.cache.cache_key(self))
 
 
 def _task_set_results_map(self: Task, results_map: ResultsMap):
